@@ -95,7 +95,7 @@ func Thorough(repo string, prop *Property, seed int, evidencePath, findingsPath,
 						c.Undecided("internal", "panic", fmt.Sprint(r))
 					}
 				}()
-				prop.Run(c)
+				prop.RunAll(c)
 			}()
 			fds, _ := loadFindings(findingsPath)
 			var firing []string
